@@ -56,7 +56,7 @@ def getOptBool (j : Json) (k : String) : R (Option Bool) :=
 /-- flags → library routine and (sparse path) what is handed to ARPACK -/
 def dispatchH (j : Json) : R Json := do
   let n ← getNat j "n"
-  let cached ← getOptBool j "cached"
+  let cached ← getOptBool j "user"
   let aherm ← getBool j "Aherm"
   let bherm ← getOptBool j "Bherm"
   let asp ← getBool j "Asparse"
@@ -148,6 +148,40 @@ def eigvalsens (j : Json) : R Json := do
   let (dA, dB) := sparseEigvalSens RP ar br B W Q dW
   return objJ [("dA", matJ dA.toDense), ("dB", matJ dB.toDense)]
 
+/-- a history of responses on ONE module: per step the library routine and whether a new shift-invert solver is chosen -/
+def history (j : Json) : R Json := do
+  let user ← getOptBool j "user"
+  let steps ← getArr j "steps"
+  let sts ← steps.toList.mapM fun s => do
+    return (← getBool s "Aherm", ← getOptBool s "Bherm", ← getBool s "sparse")
+  let out := historyRun user (HistState.init user) sts
+  return listJ (fun (r : Lib × Bool) => objJ [("lib", Json.str r.1.name), ("newAinv", Json.bool r.2)]) out
+
+/-- `_sparse_eigvec_sens`; the per-mode adjoint solvers are exact solves with `(A − λᵢ B)ᵀ` (contract checked) -/
+def eigvecsens (j : Json) : R Json := do
+  let n ← getNat j "n"
+  let m ← getNat j "nm"
+  let A ← getMat n n j "A"
+  let B ← getOpt (asMat n n) j "B"
+  let W ← getVec m j "W"
+  let Q ← getMat n m j "Q"
+  let dW ← getOpt (asVec m) j "dW"
+  let dQ ← getMat n m j "dQ"
+  let ar ← getBool j "Areal"
+  let br ← getBool j "Breal"
+  let Bm := B.getD 1
+  let mut invs : Array (Mat n n) := #[]
+  for i in List.finRange m do
+    if decide (∀ r, dQ r i = 0) then invs := invs.push 0
+    else
+      let Z ← memoM (A - W i • Bm)ᵀ
+      let inv ← exactInv Z
+      invs := invs.push inv
+  let zsolveT : Fin m → (Fin n → CQ) → (Fin n → CQ) := fun i r => invs[i.val]! *ᵥ r
+  let (dA, dB) := sparseEigvecSens RP ar br zsolveT B W Q dW dQ
+  return objJ [("dA", matJ dA.toDense), ("dB", matJ dB.toDense)]
+
 def handlers : List (String × (Json → R Json)) :=
-  [("c11.dispatch", dispatchH), ("c11.post", post), ("c11.densesens", densesens), ("c11.eigvalsens", eigvalsens)]
+  [("c11.dispatch", dispatchH), ("c11.post", post), ("c11.densesens", densesens), ("c11.eigvalsens", eigvalsens),
+   ("c11.history", history), ("c11.eigvecsens", eigvecsens)]
 end PymotoVerif.Drv.C11
